@@ -60,6 +60,23 @@ class MyDict(dict):
     pass
 
 
+class Celsius:
+    class Reading:   # two nested classes of one module that share their __name__
+        def __init__(self, v):
+            self.v = v
+
+        def __eq__(self, o):
+            return type(o) is type(self) and o.v == self.v
+
+        def __repr__(self):
+            return f"{type(self).__qualname__}({self.v!r})"
+
+
+class Survey:
+    class Reading(Celsius.Reading):
+        __eq__ = Celsius.Reading.__eq__
+
+
 def user_codecs():
     from dds.structures import FileCodecProtocol, CodecProtocol, ProtocolRef, SupportedType
 
@@ -131,7 +148,28 @@ def user_codecs():
             assert d.startswith(b"USERSTR:"), ("payload of another codec", d[:20])
             return d[8:].decode("utf-16")
 
-    return {"t1": TFile1, "t2": TFile2, "tc": TMem, "str": StrFile}
+    from dds.structures_utils import SupportedTypeUtils as STU
+
+    class CelsiusFile(FileCodecProtocol):
+        R = "user.celsius"
+
+        def ref(self):
+            return ProtocolRef(self.R)
+
+        def handled_types(self):
+            return [STU.from_type(Celsius.Reading)]
+
+        def serialize_into(self, blob, loc):
+            with open(str(loc), "wb") as f:
+                f.write(self.R.encode() + b":" + repr(blob.v).encode())
+
+        def deserialize_from(self, loc):
+            with open(str(loc), "rb") as f:
+                d = f.read()
+            DECODES.append(self.R)
+            return Celsius.Reading(eval(d[len(self.R) + 1:].decode()))
+
+    return {"t1": TFile1, "t2": TFile2, "tc": TMem, "str": StrFile, "cel": CelsiusFile}
 
 
 def values():
@@ -146,6 +184,7 @@ def values():
         # values their dedicated codec cannot write (a file name decoded with surrogateescape; a column of mixed types): the
         # store may refuse them, loudly - what it accepts must read back equal
         ("s_surr", "caf\udce9.txt"), ("df_mixed", pd.DataFrame({"x": [1, "a"]})),
+        ("cel", Celsius.Reading(21)), ("sur", Survey.Reading(3)),
         ("t_sub", TS(1, "more")), ("str_enum", Mode.FAST), ("bytes_sub", MyBytes(b"raw")), ("dict_sub", MyDict(a=1)),
     ])
 
@@ -309,7 +348,7 @@ def key(s):
 
 MAY_REFUSE = {"s_surr", "df_mixed"}
 WINDOWS = [
-    ["s_surr", "df_mixed", "s_ascii"],
+    ["s_surr", "df_mixed", "s_ascii"], ["cel", "sur", "t"],
     ["s_ascii", "t", "b_bin"], ["s_empty", "none", "t2"], ["s_uni", "dict", "df"], ["s_big", "ba", "int"],
     ["s_nl", "b_empty", "obj"], ["s_anl", "s_sp", "b_big"], ["s_crlf", "t", "s_ascii"],
     ["t_sub", "str_enum", "t"], ["bytes_sub", "dict_sub", "s_ascii"],
@@ -318,7 +357,7 @@ WINDOWS = [
 
 def alphabet(window, kind):
     ops = [("store", n) for n in window] + [("fetch", n) for n in window]
-    ops += [("register", c) for c in ("t1", "t2", "str", "tc")] + [("restart",)]
+    ops += [("register", c) for c in (("t1", "t2", "str", "tc") if "cel" not in window else ("cel", "t1"))] + [("restart",)]
     return ops
 
 
